@@ -853,6 +853,7 @@ func ruleExplicitShape(c *Ctx, prop string) {
 //   - l.262: the number of elements along axis 0 is (end-start)/step rounded DOWN (rounded up only for
 //     axes i > 0): [0:10:3] of a vector gives 3 elements, ONNX gives 4;
 //   - l.268: a resulting extent <= 0 is "fixed" to 1: the empty range [2:2] yields element 2.
+//
 // So a step other than 1 and a range with start >= end must be refused or computed by the operator
 // itself before Tensor.Slice is reached.
 func ruleR19Steps(c *Ctx, prop string) {
